@@ -263,6 +263,7 @@ pub struct Spec {
     pub name: String,
     pub is_async: bool,
     pub thread: bool,
+    pub policy: String,
     pub limit: Option<usize>,
     pub max_mem: Option<usize>,
     pub ttl: Option<u64>,
@@ -288,6 +289,7 @@ pub fn parse_spec(s: &str) -> Spec {
         name: p[2].to_string(),
         is_async: p[3] == "1",
         thread: p[4] == "1",
+        policy: cfg[1].to_string(),
         limit: o(cfg[2]),
         max_mem: o(cfg[3]),
         ttl: o(cfg[4]).map(|t| t as u64),
